@@ -506,6 +506,12 @@ func c06ClosesPubSub(c *Check, P string, r *RouterRoles2) {
 	for i, ret := range Returns(L) {
 		c.Report(!re[ret], P+".O6", "PUBLISHER-CLOSED", L, ret.Pos(), fmt.Sprintf("return#%d", i), "every exit of the run loop closes the handler's publisher (unless there is none)")
 	}
+	// a handler may have no publisher at all (AddHandler with a nil publisher and no outputs is legal): the close is
+	// reached only on the edge on which the publisher is not nil — a nil dereference here kills the whole process
+	_, pubSet := NilEdges(L, func(v ssa.Value) bool { return AllOrigins(v, IsFieldLoad(r.HPub)) })
+	for _, pc := range pubCloses {
+		c.Report(len(pubSet) > 0 && GuardedBy(L, pc, pubSet), P+".O6", "PUBLISHER-CLOSE-ONLY-IF-PRESENT", L, pc.Pos(), "publisher.Close()", "the handler's publisher is closed only on the edge on which it is not nil")
+	}
 	// the publisher is closed after the loop, not inside it
 	for _, pc := range pubCloses {
 		c.Report(!InLoop(pc), P+".O6", "PUBLISHER-CLOSED-AFTER-LOOP", L, pc.Pos(), "publisher.Close()", "the publisher is closed once, after the message loop ended")
